@@ -100,7 +100,9 @@ def _toDOMname(CSSname):
     return _reCSStoDOMname.sub(_doCSStoDOMname2, CSSname)
 
 
-_reDOMtoCSSname = re.compile('([A-Z])[a-z]+')
+# a capital starts a new word: either followed by lower-case letters or standing
+# alone between non-capitals (the single-letter word of e.g. ``overflowX``)
+_reDOMtoCSSname = re.compile('[A-Z][a-z]+|(?<![A-Z])[A-Z](?![A-Z])')
 
 
 def _toCSSname(DOMname):
